@@ -17,6 +17,12 @@ BATCHES = {
         ("version", 8, 100, {}),
         ("fault", 8, 100, {}),
         ("poor", 8, 100, {}),
+        # the same drivers through the real ABCI boundary (signed DeliverTx, EndBlock/Commit/BeginBlock of every module in
+        # app.go's order): module wiring, ante handler and baseapp rollback are part of what is observed
+        ("pay", 3, 50, {"_abci": True}),
+        ("life", 2, 50, {"_abci": True}),
+        ("super", 2, 60, {"_abci": True}),
+        ("reward", 2, 60, {"_abci": True}),
     ],
     "thorough": [
         ("reward", 60, 120, {}),
@@ -26,6 +32,12 @@ BATCHES = {
         ("version", 80, 160, {}),
         ("fault", 80, 160, {}),
         ("poor", 80, 160, {}),
+        ("pay", 12, 80, {"_abci": True}),
+        ("life", 12, 80, {"_abci": True}),
+        ("scarce", 8, 80, {"_abci": True}),
+        ("super", 8, 100, {"_abci": True}),
+        ("reward", 8, 100, {"_abci": True}),
+        ("fault", 6, 80, {"_abci": True}),
         ("pay", 60, 140, {}),
         ("life", 80, 140, {}),
         ("auth", 80, 140, {}),
@@ -46,7 +58,9 @@ def record_traces(binary, outdir, tier, seed):
     files = []
     stats = {"traces": 0, "halted": 0, "driver_wall_s": 0.0}
     for (profile, ntr, nev, cfg) in BATCHES[tier]:
-        d = os.path.join(outdir, profile)
+        cfg = dict(cfg)
+        abci = cfg.pop("_abci", False)
+        d = os.path.join(outdir, profile + ("-abci" if abci else ""))
         os.makedirs(d, exist_ok=True)
         done = 0
         attempt = 0
@@ -56,6 +70,8 @@ def record_traces(binary, outdir, tier, seed):
                    "--n", str(nev), "--out", d]
             if cfg:
                 cmd += ["--cfg", json.dumps(cfg)]
+            if abci:
+                cmd += ["--abci"]
             rc, out, wall = run(cmd, timeout=1800)
             stats["driver_wall_s"] += wall
             if rc not in (0, 3):
